@@ -5,9 +5,9 @@
 EXTENDS Integers, Sequences, FiniteSets, SequencesExt
 
 (* leaves *)
-S(cps)  == [k |-> "str",   v |-> cps]
-B(bs)   == [k |-> "bytes", v |-> bs]
-Bit(b)  == [k |-> "bit",   v |-> <<b>>]
+TxtLeaf(cps)  == [k |-> "str",   v |-> cps]
+BytLeaf(bs)   == [k |-> "bytes", v |-> bs]
+BitLeaf(b)  == [k |-> "bit",   v |-> <<b>>]
 
 Utf8(cp) == IF cp < 128 THEN <<cp>>
             ELSE IF cp < 2048 THEN <<192 + cp \div 64, 128 + (cp % 64)>>
